@@ -102,8 +102,13 @@ AJ::DeserializationError deser_call(AJ::JsonDocument& doc, const DeserOpt& o, In
   auto nl = AJ::DeserializationOption::NestingLimit(o.limit);
   if (o.use_filter) {
     auto f = AJ::DeserializationOption::Filter(o.filter);
-    if (o.msgpack) return AJ::deserializeMsgPack(doc, in..., f, nl);
-    return AJ::deserializeJson(doc, in..., f, nl);
+    if (o.filter_first) {
+      if (o.msgpack) return AJ::deserializeMsgPack(doc, in..., f, nl);
+      return AJ::deserializeJson(doc, in..., f, nl);
+    }
+    // both argument orders are part of the API
+    if (o.msgpack) return AJ::deserializeMsgPack(doc, in..., nl, f);
+    return AJ::deserializeJson(doc, in..., nl, f);
   }
   if (o.msgpack) return AJ::deserializeMsgPack(doc, in..., nl);
   return AJ::deserializeJson(doc, in..., nl);
